@@ -169,7 +169,18 @@ func judgeRegion(prop string, subj, clip Paths, ct c2.ClipType, fr c2.FillRule, 
 }
 
 func fmtEvents(evs []c2.VerifEvent) string {
-	s := "["
+	// "join" events are bookkeeping of the (repaired) join defect F6; only discards are shown
+	var shown []c2.VerifEvent
+	joins := 0
+	for _, e := range evs {
+		if e.Kind == "join" {
+			joins++
+			continue
+		}
+		shown = append(shown, e)
+	}
+	evs = shown
+	s := fmt.Sprintf("[(%d join events)", joins)
 	for i, e := range evs {
 		if i > 5 {
 			s += fmt.Sprintf(" ...%d more", len(evs)-i)
